@@ -488,6 +488,8 @@ impl<R: Read, TSpec> TagIterator<R, TSpec>
                 self.read_next();
     
                 if position >= self.emission_queue.len() {
+                    // The master is incomplete, so the children collected so far can't be emitted (same as when a child fails to parse)
+                    self.emission_queue.truncate(pre_queue_len);
                     self.emission_queue.push_back(Err(TagIteratorError::UnexpectedEOF{ tag_start, tag_id: Some(tag_id), tag_size: None, partial_data: None }));
                     return;
                 }
